@@ -37,6 +37,19 @@ func sharedScratch(x *Ctx, rule string) {
 			el = u.Elem()
 		case *types.Slice:
 			el = u.Elem()
+		case *types.Struct:
+			// a struct of scratch arrays (key and nonce kept side by side)
+			if n, ok := t.(*types.Named); ok && n.Obj().Pkg() != nil && !strings.HasPrefix(n.Obj().Pkg().Path(), load.Module) {
+				return false
+			}
+			for i := 0; i < u.NumFields(); i++ {
+				if a, ok := u.Field(i).Type().Underlying().(*types.Array); ok {
+					if b, ok := a.Elem().Underlying().(*types.Basic); ok && b.Info()&types.IsNumeric != 0 {
+						return true
+					}
+				}
+			}
+			return false
 		default:
 			return false
 		}
@@ -46,7 +59,7 @@ func sharedScratch(x *Ctx, rule string) {
 	var fromGlobalRec func(v ssa.Value, seen map[ssa.Value]bool) *ssa.Global
 	fromGlobal := func(v ssa.Value, _ int) *ssa.Global {
 		switch v.(type) {
-		case *ssa.Global, *ssa.Slice, *ssa.IndexAddr, *ssa.UnOp, *ssa.ChangeType, *ssa.Phi:
+		case *ssa.Global, *ssa.Slice, *ssa.IndexAddr, *ssa.FieldAddr, *ssa.UnOp, *ssa.ChangeType, *ssa.Phi:
 			return fromGlobalRec(v, map[ssa.Value]bool{})
 		}
 		return nil
@@ -64,6 +77,8 @@ func sharedScratch(x *Ctx, rule string) {
 		case *ssa.Slice:
 			return fromGlobalRec(t.X, seen)
 		case *ssa.IndexAddr:
+			return fromGlobalRec(t.X, seen)
+		case *ssa.FieldAddr:
 			return fromGlobalRec(t.X, seen)
 		case *ssa.UnOp:
 			return fromGlobalRec(t.X, seen)
@@ -810,4 +825,186 @@ func noSingleReads(x *Ctx, S map[*ssa.Function]bool) {
 		got[n[strings.LastIndex(n, ".")+1:]] = true
 	}
 	x.C.Obl("C18.R5", "no-single-read:canary", "lint/testdata/canary/stream/stream.go", "the seeded single Read into a sized buffer is flagged; io.ReadFull, a read loop and a wrapper's Read method are not", len(got) == 1 && got["Header"], fmt.Sprint(got))
+}
+
+// gettersNeverNilNil (C09.P3): a getter of the container that reports success hands out a token. On every success
+// path of GetToken / GetDelegation / GetInvocation the first result is not the nil constant, and when it is the
+// value half of a comma-ok type assertion or map lookup the path knows the ok half to be true. invocation.loadProofs
+// trusts a nil error: (nil, nil) for a CID that names another kind of token is dereferenced by verifyProofs.
+func gettersNeverNilNil(x *Ctx) {
+	for _, name := range []string{"GetToken", "GetDelegation", "GetInvocation"} {
+		f := x.fn("C09.P3", "(pkg/container.Reader)."+name)
+		if f == nil {
+			continue
+		}
+		n, bad := 0, ""
+		for _, p := range x.paths("C09.P3", f) {
+			if p.End != paths.EndReturn || len(p.Results()) != 2 {
+				continue
+			}
+			if o, _ := p.ErrorOutcome(); o != paths.Success {
+				continue
+			}
+			n++
+			r := p.Results()[0]
+			if r == nil || r.IsNil() {
+				bad += x.P.Pos(p.Ret.Pos()) + ": reports success with a nil token\n"
+				continue
+			}
+			if t := r; t.Op == "extract" && t.Name == "#0" && len(t.Args) == 1 && (t.Args[0].Op == "typeassert" || t.Args[0].Op == "lookup") {
+				ok := t.Args[0].String() + "#1"
+				if !p.HasFact(ok, true) {
+					bad += fmt.Sprintf("%s: hands out %s although the path does not know %s to hold\n", x.P.Pos(p.Ret.Pos()), firstLines(t.String(), 1), firstLines(ok, 1))
+				}
+			}
+			if r.Op == "loopphi" && !p.HasFact(eqs(r.String(), "const(nil)"), false) {
+				// a variable a loop fills: handed out only where it is known to be set
+				bad += fmt.Sprintf("%s: hands out a variable filled by a loop without knowing it to be non-nil\n", x.P.Pos(p.Ret.Pos()))
+			}
+		}
+		x.C.Obl("C09.P3", "never-nil-nil:(pkg/container.Reader)."+name, x.pos(f), "a success of the getter carries a token: not nil, and a comma-ok value only where ok holds", bad == "" && n > 0, dedupLines(bad))
+	}
+}
+
+// noEarlyExit (C11.R3): a quantifier looks at every element. The loops of matchStatement (and of helpers its code
+// was moved into) are left only by the loop test or by a return from inside: no break. A bound on the number of
+// elements visited makes "all" true for a list whose violating element lies beyond it.
+func noEarlyExit(x *Ctx) {
+	root := x.fn("C11.R3", "pkg/policy.matchStatement")
+	if root == nil {
+		return
+	}
+	fns := []*ssa.Function{root}
+	for g := range x.P.ReachFrom(root) {
+		if g != root && x.P.IsNewHelper(g) && len(g.Blocks) > 0 {
+			fns = append(fns, g)
+		}
+	}
+	sort.Slice(fns, func(i, j int) bool { return load.ShortName(fns[i]) < load.ShortName(fns[j]) })
+	n, bad := 0, ""
+	for _, f := range fns {
+		for _, l := range paths.Info(f).Loops {
+			n++
+			// the block the loop test leaves to
+			var exit *ssa.BasicBlock
+			for _, s := range l.Header.Succs {
+				if !l.Body[s] {
+					exit = s
+				}
+			}
+			if exit == nil {
+				continue
+			}
+			for _, pr := range exit.Preds {
+				if pr != l.Header && l.Body[pr] {
+					bad += fmt.Sprintf("%s: %s leaves a loop over the elements through a break (%s)\n", x.P.Pos(pr.Instrs[len(pr.Instrs)-1].Pos()), load.ShortName(f), exit.Comment)
+				}
+			}
+		}
+	}
+	x.C.Obl("C11.R3", "no-early-exit:matchStatement", x.pos(root), fmt.Sprintf("each of the %d loops of the evaluator is left only by its loop test or by a return", n), bad == "" && n >= 4, dedupLines(bad))
+}
+
+// noClockOnSealing (C07.R5): whether a token can be sealed does not depend on when it is sealed. No function of the
+// module reachable from the encoders (toIPLD of both token types) reads the clock: a token the constructor accepted
+// and that could be sealed a minute ago must still seal now (the decoders accept expired tokens; only validity
+// checks look at the time).
+func noClockOnSealing(x *Ctx) {
+	for _, pk := range []string{"token/delegation", "token/invocation"} {
+		f := x.fn("C07.R5", "(*"+pk+".Token).toIPLD")
+		if f == nil {
+			continue
+		}
+		bad, n := "", 0
+		for g := range x.P.ReachFrom(f) {
+			n++
+			for _, b := range g.Blocks {
+				for _, in := range b.Instrs {
+					if c, ok := in.(ssa.CallInstruction); ok {
+						if h := c.Common().StaticCallee(); h != nil && h.Pkg != nil && h.Pkg.Pkg.Path() == "time" {
+							switch h.Name() {
+							case "Now", "Since", "Until":
+								bad += fmt.Sprintf("%s: %s reads the clock (time.%s) on the sealing path\n", x.P.Pos(in.Pos()), load.ShortName(g), h.Name())
+							}
+						}
+					}
+				}
+			}
+		}
+		x.C.Obl("C07.R5", "no-clock-on-sealing:"+pk, x.pos(f), fmt.Sprintf("none of the %d functions reachable from toIPLD reads the clock", n), bad == "" && n > 0, dedupLines(bad))
+	}
+}
+
+// statelessUnmarshallers (C16.R5): the functions PubKey looks up to decode key material keep no state between calls.
+// No function literal of package did stores through a variable it captured: a key struct allocated once outside the
+// literal and filled in on every call is shared by all concurrent PubKey calls on keys of that curve.
+func statelessUnmarshallers(x *Ctx) {
+	n, bad := 0, ""
+	for _, f := range x.P.ModuleFuncs() {
+		if x.P.PkgPathOf(f) != load.Module+"/did" || f.Parent() == nil || len(f.Blocks) == 0 {
+			continue
+		}
+		n++
+		for _, b := range f.Blocks {
+			for _, in := range b.Instrs {
+				st, ok := in.(*ssa.Store)
+				if !ok {
+					continue
+				}
+				v := st.Addr
+				for i := 0; i < 8; i++ {
+					switch t := v.(type) {
+					case *ssa.FieldAddr:
+						v = t.X
+						continue
+					case *ssa.IndexAddr:
+						v = t.X
+						continue
+					case *ssa.UnOp:
+						v = t.X
+						continue
+					}
+					break
+				}
+				if fv, ok := v.(*ssa.FreeVar); ok {
+					bad += fmt.Sprintf("%s: %s writes through the captured variable %s: state shared by every call\n", x.P.Pos(in.Pos()), load.ShortName(f), fv.Name())
+				}
+			}
+		}
+	}
+	x.C.Obl("C16.R5", "stateless-unmarshallers", "did/did.go", fmt.Sprintf("none of the %d function literals of package did writes through a captured variable", n), bad == "" && n > 0, dedupLines(bad))
+}
+
+// typedDecodersThroughFromIPLD (C07.R6): the generic decoders pick the typed decoder from the decoded envelope. In
+// package token the only functions of the delegation / invocation packages that are called are their FromIPLD: a
+// typed byte decoder chosen by looking at the raw bytes lets the generic byte decoder and the generic stream
+// decoder disagree.
+func typedDecodersThroughFromIPLD(x *Ctx) {
+	n, bad := 0, ""
+	for _, f := range x.P.ModuleFuncs() {
+		if x.P.PkgPathOf(f) != load.Module+"/token" || len(f.Blocks) == 0 {
+			continue
+		}
+		for _, b := range f.Blocks {
+			for _, in := range b.Instrs {
+				c, ok := in.(ssa.CallInstruction)
+				if !ok {
+					continue
+				}
+				h := c.Common().StaticCallee()
+				if h == nil || h.Pkg == nil || h.Name() == "init" {
+					continue
+				}
+				pp := h.Pkg.Pkg.Path()
+				if pp != load.Module+"/token/delegation" && pp != load.Module+"/token/invocation" {
+					continue
+				}
+				n++
+				if h.Name() != "FromIPLD" {
+					bad += fmt.Sprintf("%s: %s calls %s: the typed decoder is not chosen from the decoded envelope\n", x.P.Pos(in.Pos()), load.ShortName(f), load.ShortName(h))
+				}
+			}
+		}
+	}
+	x.C.Obl("C07.R6", "typed-decoders-through-FromIPLD", "token/read.go", fmt.Sprintf("each of the %d calls from package token into the typed packages is FromIPLD(node)", n), bad == "" && n >= 2, dedupLines(bad))
 }
